@@ -212,8 +212,11 @@ class PointChargeIntegral(BaseTwoIndexSymmetric):
         coeffs_b = contractions_two.coeffs
 
         # Enforce L_a >= L_b
+        # When both shells have the same angular momentum, the recursion is carried out on the tighter
+        # shell: the centre of the product Gaussian is then close to the centre on which the angular
+        # momentum is built up, and fewer digits are lost in the transfer to the second shell.
         ab_swapped = False
-        if angmom_a < angmom_b:
+        if angmom_a < angmom_b or (angmom_a == angmom_b and exps_a.max() < exps_b.max()):
             coord_a, coord_b = coord_b, coord_a
             angmom_a, angmom_b = angmom_b, angmom_a
             angmoms_a, angmoms_b = angmoms_b, angmoms_a
